@@ -7,7 +7,7 @@
 From Coq Require Import ZArith List Bool.
 From RecordUpdate Require Import RecordSet.
 From Common Require Import Res.
-From Core Require Import World Model Step Reach Rel_Frame Proofs_C03 Proofs_C03b.
+From Core Require Import World Model Step Reach Rel_Frame Proofs_C03 Proofs_C03b Proofs_C03c.
 Import ListNotations RecordSetNotations.
 Open Scope Z_scope.
 
@@ -120,3 +120,88 @@ Theorem C03_eot_prediction_playing :
   /\ a_uri w' = Some (trk x) /\ a_state w' = Playing /\ World.tl w' = World.tl w.
 Proof. exact eot_prediction_playing. Qed.
 Print Assumptions C03_eot_prediction_playing.
+
+(* Order clause: playing through an unchanged tracklist in the plain sequential mode (consume,
+   random, repeat, single off) from a settled state on entry c visits the FOLLOWING entries in
+   list order - for every tracklist `pre ++ c :: post` without duplicate IDs whose entries from c
+   on are playable with known lengths: after |post| end-of-track blocks the player is settled on
+   the last entry, the tracklist is untouched, and the events announced are, block by block,
+   ended(previous, its length) / state playing->playing / started(next), in list order. *)
+Theorem C03_play_through_in_order :
+  forall shuf f (lens : track -> Z) post pre c w,
+  World.tl w = pre ++ c :: post -> NoDup (map tlid (World.tl w)) ->
+  settled_on w c -> pstate w = Playing -> sequential w -> a_atf_done w = false -> script w = [] ->
+  (forall y, In y (c :: post) -> kind_of w (trk y) = Playable /\ len_of w (trk y) = Some (lens (trk y))) ->
+  let w' := run_world shuf (S f) w (blocks (length post)) in
+  settled_on w' (last post c) /\ pstate w' = Playing /\ World.tl w' = World.tl w
+  /\ events w' = through_events c post lens ++ events w.
+Proof. exact play_through. Qed.
+Print Assumptions C03_play_through_in_order.
+
+(* ... and then stops: at the last entry the end of the track ends playback (no current entry,
+   state stopped, audio without URI, tracklist untouched). *)
+Theorem C03_last_entry_stops :
+  forall shuf f pre c len w,
+  World.tl w = pre ++ [c] -> NoDup (map tlid (World.tl w)) -> sequential w ->
+  settled_on w c -> pstate w = Playing -> a_atf_done w = false -> len_of w (trk c) = Some len ->
+  let w' := run_world shuf (S f) w [AboutToFinish; Deliver] in
+  current w' = None /\ pstate w' = Stopped /\ pending w' = None /\ queue w' = []
+  /\ a_uri w' = None /\ World.tl w' = World.tl w
+  /\ events w' = EvEnded c (a_pos w) :: EvStateChanged Playing Stopped :: events w.
+Proof. exact last_entry_stops. Qed.
+Print Assumptions C03_last_entry_stops.
+
+(* non-vacuity: three playable entries, playing the first: two blocks visit 2 and 3 in order,
+   the third block stops *)
+Example C03_play_through_example :
+  let w := run_world shuf_concrete 10 (init_world 50 [Playable; Playable; Playable] [Some 900; Some 800; Some 700] [] None None)
+             [Add [0; 1; 2] None; Play None; Deliver; Deliver; Deliver; Deliver] in
+  let w' := run_world shuf_concrete 10 w (blocks 2 ++ [AboutToFinish; Deliver]) in
+  map (fun e => match e with EvStarted t => tlid t | _ => 0 end)
+      (filter (fun e => match e with EvStarted _ => true | _ => false end) (rev (events w'))) = [1; 2; 3]
+  /\ pstate w' = Stopped /\ current w' = None /\ map tlid (World.tl w') = [1; 2; 3].
+Proof. vm_compute. repeat split; reflexivity. Qed.
+Print Assumptions C03_play_through_example.
+
+(* ---- The recorded known findings, as kernel-checked facts about the model (the model is the
+   code line by line; the correspondence replays the same histories on the real Core).  Each
+   exhibits a reachable settled state in which an announced track does not become current. *)
+Definition D := Deliver.
+
+(* consume on, the entry after the playing one is unplayable: get_next_tlid announces it (2); it
+   is skipped - but next() then restarts the playing entry (1) from the top of the list instead
+   of going on to entry 3 or stopping, and entry 1 is consumed while it plays *)
+Example C03_refuted_consume_unplayable_successor :
+  let w := run_world shuf_concrete 400 (init_world 50 [Playable; Refuse] [Some 1000; Some 1000] [] None None)
+             [Add [0; 1; 1] None; SetMode 0 true; Play None; D; D; D; D] in
+  (pstate w = Playing /\ option_map tlid (current w) = Some 1 /\ queue w = [] /\ map tlid (World.tl w) = [1; 2; 3]
+   /\ fst (run_op shuf_concrete 400 GetNext w) = Ok (ROptZ (Some 2)))
+  /\ let w' := run_world shuf_concrete 400 w [Next; D; D; D; D] in
+     pstate w' = Playing /\ option_map tlid (current w') = Some 1 /\ queue w' = [] /\ map tlid (World.tl w') = [3].
+Proof. vm_compute. repeat split; reflexivity. Qed.
+Print Assumptions C03_refuted_consume_unplayable_successor.
+
+(* consume + random, shuffle order rebuilt by a tracklist edit: get_next_tlid / get_eot_tlid
+   announce the playing entry itself; at the end of the track it is consumed and playback stops *)
+Example C03_refuted_consume_random_self_prediction :
+  let w := run_world shuf_concrete 400 (init_world 50 [Playable] [Some 1000] [] None None)
+             [Add [0] None; SetMode 0 true; SetMode 1 true; Play None; D; D; D; D; Move 0 0 0] in
+  (pstate w = Playing /\ option_map tlid (current w) = Some 1 /\ queue w = []
+   /\ fst (run_op shuf_concrete 400 GetEot w) = Ok (ROptZ (Some 1))
+   /\ fst (run_op shuf_concrete 400 GetNext w) = Ok (ROptZ (Some 1)))
+  /\ let w' := run_world shuf_concrete 400 w [AboutToFinish; D; D; D; D; D; D] in
+     pstate w' = Stopped /\ current w' = None /\ queue w' = [] /\ World.tl w' = [].
+Proof. vm_compute. repeat split; reflexivity. Qed.
+Print Assumptions C03_refuted_consume_random_self_prediction.
+
+(* consume + single + repeat: get_eot_tlid announces the playing entry itself; when the track
+   ends playback stops with no current entry *)
+Example C03_refuted_consume_single_repeat_eot :
+  let w := run_world shuf_concrete 400 (init_world 50 [Playable] [Some 1000] [] None None)
+             [Add [0] None; SetMode 0 true; SetMode 2 true; SetMode 3 true; Play (Some 1); D; D; D; D] in
+  (pstate w = Playing /\ option_map tlid (current w) = Some 1 /\ queue w = []
+   /\ fst (run_op shuf_concrete 400 GetEot w) = Ok (ROptZ (Some 1)))
+  /\ let w' := run_world shuf_concrete 400 w [AboutToFinish; D; D; D; D; D; D; D; D] in
+     pstate w' = Stopped /\ current w' = None /\ queue w' = [].
+Proof. vm_compute. repeat split; reflexivity. Qed.
+Print Assumptions C03_refuted_consume_single_repeat_eot.
